@@ -112,7 +112,8 @@ def judge(v, results, wd, open_keys):
         for m in r["mismatches"]:
             cls = m.get("class", "")
             rp = os.path.join(wd, "replay_case_%s_%d_%d.json" % (cls, m["case"], m["step"]))
-            json.dump(m.get("replay"), open(rp, "w"))
+            if not (cls in CLASSES and os.path.exists(os.path.join(wd, "reproducer_%s.json" % cls))):
+                json.dump(m.get("replay"), open(rp if cls not in CLASSES else os.path.join(wd, "reproducer_%s.json" % cls), "w"))
             if cls == "harness":
                 raise vlib.Inconclusive("harness problem: %s %s" % (m["what"], m.get("got")))
             if cls == "model":
@@ -120,6 +121,8 @@ def judge(v, results, wd, open_keys):
                 continue
             if cls in CLASSES and cls in open_keys:
                 continue          # reported once per class below
+            if cls in CLASSES:
+                rp = os.path.join(wd, "reproducer_%s.json" % cls)
             nviol += 1
             if nviol <= 5:
                 what = m["what"]
@@ -163,15 +166,17 @@ def run(tier, v):
                    ("mc_2r", "MC_Inhibit_2r.cfg", {}), ("mc_eq", "MC_Inhibit_eq.cfg", {})]
     mcs = {}
 
-    def run_mcs():        # one after the other, 4 workers, beside the generators (4 workers) and the replay
-        for name, base, subst in mc_jobs:
+    def run_mcs(jobs):    # one after the other, beside the generators (4 workers) and the replay
+        for name, base, subst in jobs:
             try:
                 cfg = derive_cfg(base, "x_" + base, dict(subst, KnownGaps=known))
-                mcs[name] = vlib.tlc(PID, name, "MC_Inhibit", "x_" + base, workers=4,
+                mcs[name] = vlib.tlc(PID, name, "MC_Inhibit", "x_" + base, workers=3 if thorough else 4,
                                      timeout=1500 if thorough else 300, coverage=False, files=[cfg])
             except Exception as e:       # judged after join
                 mcs[name] = e
-    ths = [threading.Thread(target=run_mcs)]
+    ths = [threading.Thread(target=run_mcs, args=(mc_jobs[0::2],))]
+    if len(mc_jobs) > 1:
+        ths.append(threading.Thread(target=run_mcs, args=(mc_jobs[1::2],)))
     for t in ths:
         t.start()
 
@@ -249,7 +254,7 @@ def run(tier, v):
                 "reference over the alerts the real provider holds firing; non-trivial = the reference says inhibited. Behaviours are "
                 "distinct operation sequences printed by TLC (all of the stated length for the exhaustive sets, random for sim).",
         "order_independence": {
-            "keys (rule set, set of firing alerts, label set)": cnt.get("order_keys", 0),
+            "keys (rule set, set of firing alerts, label set), summed over replay processes": cnt.get("order_keys", 0),
             "reached by several different histories": cnt.get("order_keys_reached_by_several_histories", 0),
             "with two different real verdicts (all attributed to the listed findings, else a VIOLATION was raised)": cnt.get("order_keys_with_two_verdicts", 0),
         },
